@@ -250,6 +250,9 @@ func genPoly(c *vlib.Case, rng *rand.Rand, wantExact bool) *pinfo {
 
 func checkTopo2(c *vlib.Case, api string, in *pinfo, out []vlib.Seg, moved bool, expectV int, extra map[string]interface{}) (*vlib.Topo2, bool) {
 	c.Count("topo.checked."+api, 1)
+	if len(in.segs) <= 12 {
+		c.Sample(api, 1, in.witness(extra))
+	}
 	for _, s := range out {
 		for _, p := range s {
 			if math.IsNaN(p.X+p.Y) || math.IsInf(p.X+p.Y, 0) {
